@@ -138,7 +138,7 @@ def compare_namespace(model, nsn, tree, mod, pkg, mods):
             elif isinstance(item, ast.FunctionDef):
                 st_methods[item.name] = item
         rt_methods = {k for k, v in vars(cls).items() if (inspect.isfunction(v) or isinstance(v, (classmethod, staticmethod, property)))
-                      and (not k.startswith('_') or k in ('__init__', '_process_custom_annotations'))}
+                      and (not k.startswith('_') or k in ('__init__', '_process_custom_annotations') or k in st_methods)}
         if set(st_methods) != rt_methods:
             bad.append(('methods-differ:%s' % kind, 'stub class %s.%s declares methods %r, the runtime class defines %r' % (
                 nsn, d.name, sorted(st_methods), sorted(rt_methods))))
@@ -256,9 +256,33 @@ def task(item):
     return {'outcome': oc, 'viol': v, 'n': max(n, 1), 'transitions': n}
 
 
+def name_style_models():
+    """Members with unusual but legal names (Python keywords and soft keywords, names the generated code uses itself, mixed case):
+    one small model per name, with the name as a struct field, a void tag and a typed tag.  Where python_types itself cannot cope
+    with the name the comparison is skipped (C09's matter); wherever its module loads, the stub has to agree with it."""
+    import keyword
+    from mc.model import Model, Namespace, File, mkfield, mktag, mkstruct, mkunion, mkroute, VOID
+    I32 = P('Int32', ())
+    names = sorted(set(k.lower() for k in keyword.kwlist + keyword.softkwlist)) + c09.HAZARD_FIELDS + ['fooBar', 'Baz', 'x1', 'a_b', 'HTTPCode']
+    out = []
+    for nm in dict.fromkeys(names):
+        for pos in ('field', 'void-tag', 'typed-tag'):
+            defs = (mkstruct('Cc', parent=R(None, 'Ss'), fields=[mkfield('yy', N(R(None, 'Uu')))]),
+                    mkstruct('Ss', fields=[mkfield(nm if pos == 'field' else 'ff', I32), mkfield('xx', I32, 2)]),
+                    mkunion('Uu', tags=[mktag(nm if pos == 'void-tag' else 'uu'), mktag('t2', R(None, 'Ss'))]),
+                    mkunion('Vv', tags=[mktag(nm if pos == 'typed-tag' else 'tt', N(I32)), mktag('vv')]),
+                    mkunion('Ww', parent=R(None, 'Vv'), tags=[mktag('ww', R(None, 'Ss'))]),
+                    mkroute('rr', 1, R(None, 'Ss'), R(None, 'Vv'), VOID))
+            out.append((Model((Namespace('na', (File(None, (), defs),)),)), ('name-style', pos, nm), 'name-style', ('names',), 1))
+    return out
+
+
 def run(tier, seed):
     r = explore.Run(PROP, tier, seed)
     states = c01.gather_states(tier, r, budget=500 if tier == 'quick' else None)
+    styled = name_style_models()
+    r.bounds['name_style_models'] = len(styled)
+    states = list(states) + styled
     for s, tr, pn, fl, d in states[len(states) // 2:len(states) // 2 + 1]:
         r.sample({'profile': pn, 'trace': list(tr), 'specs': render.render(s)})
     r.run_tasks(task, states, budget=300, chunksize=8)
